@@ -209,4 +209,60 @@ theorem le_getLast_of_strictInc : ∀ (l : List ℚ) (b : ℚ), StrictInc l → 
         exact le_trans (le_of_lt h1) (ih b (List.pairwise_cons.mp hl).2 hb z (by simp))
       · exact ih b (List.pairwise_cons.mp hl).2 hb x hx
 
+theorem firstIdx_spec (p : ℚ → Bool) : ∀ (l : List ℚ) (a : ℕ), firstIdx p l = some a →
+    (∃ v, l[a]? = some v ∧ p v = true) ∧ ∀ j, j < a → ∀ v, l[j]? = some v → p v = false := by
+  intro l
+  induction l with
+  | nil => intro a h; simp [firstIdx] at h
+  | cons x xs ih =>
+    intro a h
+    by_cases hx : p x = true
+    · simp [firstIdx, hx] at h; subst h
+      exact ⟨⟨x, by simp, hx⟩, fun j hj => absurd hj (Nat.not_lt_zero j)⟩
+    · have hx' : p x = false := by simpa using hx
+      simp only [firstIdx, hx', Bool.false_eq_true, if_false, Option.map_eq_some_iff] at h
+      obtain ⟨a', ha', rfl⟩ := h
+      obtain ⟨⟨v, hv, hpv⟩, hlt⟩ := ih a' ha'
+      refine ⟨⟨v, by simpa using hv, hpv⟩, ?_⟩
+      intro j hj w hw
+      cases j with
+      | zero => simp at hw; subst hw; exact hx'
+      | succ j => exact hlt j (by omega) w (by simpa using hw)
+
+theorem lastIdx_spec (p : ℚ → Bool) (l : List ℚ) (b : ℕ) (h : lastIdx p l = some b) :
+    (∃ v, l[b]? = some v ∧ p v = true) ∧ ∀ j, b < j → ∀ v, l[j]? = some v → p v = false := by
+  simp only [lastIdx, Option.map_eq_some_iff] at h
+  obtain ⟨i, hi, rfl⟩ := h
+  obtain ⟨⟨v, hv, hpv⟩, hlt⟩ := firstIdx_spec p l.reverse i hi
+  have hil : i < l.length := by
+    have := (List.getElem?_eq_some_iff.mp hv).1; simpa using this
+  refine ⟨⟨v, ?_, hpv⟩, ?_⟩
+  · rw [List.getElem?_reverse hil] at hv; exact hv
+  · intro j hj w hw
+    have hjl : j < l.length := (List.getElem?_eq_some_iff.mp hw).1
+    have hj' : l.length - 1 - j < i := by omega
+    apply hlt (l.length - 1 - j) hj' w
+    rw [List.getElem?_reverse (by omega)]
+    have : l.length - 1 - (l.length - 1 - j) = j := by omega
+    rw [this]; exact hw
+
+theorem firstIdx_none (p : ℚ → Bool) : ∀ (l : List ℚ), firstIdx p l = none → ∀ v ∈ l, p v = false := by
+  intro l
+  induction l with
+  | nil => intro _ v hv; simp at hv
+  | cons x xs ih =>
+    intro h v hv
+    by_cases hx : p x = true
+    · simp [firstIdx, hx] at h
+    · have hx' : p x = false := by simpa using hx
+      simp only [firstIdx, hx', Bool.false_eq_true, if_false, Option.map_eq_none_iff] at h
+      rcases List.mem_cons.mp hv with rfl | hv
+      · exact hx'
+      · exact ih h v hv
+
+theorem lastIdx_none (p : ℚ → Bool) (l : List ℚ) (h : lastIdx p l = none) : ∀ v ∈ l, p v = false := by
+  simp only [lastIdx, Option.map_eq_none_iff] at h
+  intro v hv
+  exact firstIdx_none p l.reverse h v (by simpa using hv)
+
 end Lentil.Spec
